@@ -1511,3 +1511,410 @@ Proof.
   pose proof (head_delivery g0 g fl evs 0 d _ Hs Hd Hr Hdel Hu (mkrecv [] [] g0) ltac:(lia) P0) as (_ & _ & _ & Hl).
   rewrite reqs_from_length, firstn_all in Hl. apply Hl.
 Qed.
+
+(* ================================================================== *)
+(* 7. bulk sync of a fresh standby followed by the live stream          *)
+(* ================================================================== *)
+Lemma newest_entry c b l q : ring_inv c b l -> nth_error l (length l - 1) = Some q ->
+  entry_seq b ((r_head b + r_cap b - 1) mod r_cap b) = Ok (q_seq q).
+Proof.
+  intros H Hq. pose proof H as (Hcap & Hc0 & Hlen & Hh & Hsz & Hle & Hnth).
+  assert (Hl : (0 < length l)%nat) by (destruct l; [destruct (0 - 1)%nat; discriminate|simpl; lia]).
+  specialize (Hnth (length l - 1)%nat ltac:(lia)).
+  rewrite Hcap. unfold entry_seq.
+  replace ((r_head b + c - 1) mod c)%nat with ((r_head b + c - length l + (length l - 1)) mod c)%nat by (f_equal; lia).
+  rewrite Hnth, nth_error_map, Hq. reflexivity.
+Qed.
+
+Lemma somes_map_some l : somes (map Some l) = (l, false).
+Proof. induction l as [|q r IH]; simpl; [reflexivity|]. rewrite IH. reflexivity. Qed.
+
+(* Range(oldest, newest) on the sender's ring is the whole retained window *)
+Lemma full_window c b l os :
+  ring_inv c b l -> (Z.of_nat c <= max_make)%Z -> consec os l -> (0 <= os)%Z -> (os + Z.of_nat (length l) <= two63)%Z ->
+  l <> [] ->
+  exists o n, oldest_seq b = Ok o /\ newest_seq b = Ok n /\ Z.of_N o = os /\ Z.of_N n = (os + Z.of_nat (length l) - 1)%Z /\
+              range_rep b (Z.of_N o) (Z.of_N n) = Ok (map Some l).
+Proof.
+  intros H Hc Hcs Hos Hmax Hne.
+  pose proof H as (Hcap & Hc0 & Hlen & Hh & Hsz & Hle & Hnth).
+  destruct l as [|q0 l'] eqn:El; [contradiction|]. rewrite <- El in *.
+  assert (Hl : (0 < length l)%nat) by (rewrite El; simpl; lia).
+  destruct (nth_error l (length l - 1)) as [qn|] eqn:En; [|apply nth_error_None in En; lia].
+  exists (q_seq q0), (q_seq qn).
+  assert (Hq0 : Z.of_N (q_seq q0) = os) by (rewrite (Hcs 0%nat q0); [lia|rewrite El; reflexivity]).
+  assert (Hqn : Z.of_N (q_seq qn) = (os + Z.of_nat (length l) - 1)%Z) by (rewrite (Hcs _ _ En); lia).
+  unfold oldest_seq, newest_seq. rewrite Hsz.
+  destruct (Nat.eqb_spec (length l) 0); [lia|].
+  rewrite (oldest_entry c b l q0 l' H El), (newest_entry c b l qn H En).
+  repeat split; try assumption.
+  rewrite (range_rep_exact c b l os) by (try assumption; unfold two63, two64 in *; lia).
+  f_equal. f_equal. apply filter_all. intros x Hx. apply in_nth_error in Hx. destruct Hx as (j & Hj & Hjx).
+  unfold in_range. rewrite (Hcs _ _ Hjx). lia.
+Qed.
+
+Definition put_cp (st : list ((N * N) * checkpoint)) (c : checkpoint) := aset keyeqb (cp_key c) c st.
+
+Lemma store_of_updates fl cps : forall rc,
+  rc_store (fold_left (recv_update fl) cps rc) = fold_left put_cp cps (rc_store rc).
+Proof. induction cps as [|c r IH]; intros rc; [reflexivity|]. simpl. rewrite IH. reflexivity. Qed.
+
+Lemma last_write_none k l : last_write k l = None <-> forall q, In q l -> cp_key (q_cp q) <> k.
+Proof.
+  induction l as [|q r IH]; simpl; [tauto|].
+  destruct (last_write k r) eqn:E.
+  - split; [discriminate|]. intros H. exfalso.
+    assert (G : Some o = None) by (apply IH; intros q' Hq'; apply H; auto). discriminate.
+  - destruct (keyeqb k (cp_key (q_cp q))) eqn:Ek.
+    + split; [discriminate|]. intros H. apply keyeqb_eq in Ek. exfalso. apply (H q); auto.
+    + split; [|reflexivity]. intros _ q' [<-|Hq'].
+      * intros Heq. rewrite Heq, (proj2 (keyeqb_eq k k) eq_refl) in Ek. discriminate.
+      * apply (proj1 IH eq_refl q' Hq').
+Qed.
+
+Lemma has_later_spec k l : has_later k l = true <-> last_write k l <> None.
+Proof.
+  unfold has_later. rewrite existsb_exists. split.
+  - intros (q & Hq & E) H. apply keyeqb_eq in E. apply (proj1 (last_write_none k l) H q Hq). auto.
+  - intros H. destruct (existsb (fun q => keyeqb k (cp_key (q_cp q))) l) eqn:Ex.
+    + apply existsb_exists in Ex. exact Ex.
+    + exfalso. apply H. apply last_write_none. intros q Hq Heq.
+      assert (existsb (fun q => keyeqb k (cp_key (q_cp q))) l = true).
+      { apply existsb_exists. exists q. split; [exact Hq|]. apply keyeqb_eq. auto. }
+      congruence.
+Qed.
+
+(* the fixed bulk replay stores, for every session, what its last entry of the window says — unless that is a
+   DELETE, which a page of bare checkpoints cannot convey *)
+Lemma aget_compact k w : forall st,
+  aget keyeqb k (fold_left put_cp (compact w) st) =
+  match last_write k w with Some (Some c) => Some c | _ => aget keyeqb k st end.
+Proof.
+  induction w as [|q r IH]; intros st; [reflexivity|]. cbn [compact last_write].
+  destruct (has_later (cp_key (q_cp q)) r) eqn:Hl.
+  - rewrite IH. destruct (last_write k r) as [x|] eqn:E; [reflexivity|].
+    destruct (keyeqb k (cp_key (q_cp q))) eqn:Ek; [|reflexivity].
+    apply keyeqb_eq in Ek. subst k. apply has_later_spec in Hl. contradiction.
+  - assert (Hn : last_write (cp_key (q_cp q)) r = None).
+    { destruct (last_write (cp_key (q_cp q)) r) eqn:E; [|reflexivity].
+      assert (has_later (cp_key (q_cp q)) r = true) by (apply has_later_spec; congruence). congruence. }
+    destruct (q_act q) eqn:Ea.
+    + cbn [fold_left]. rewrite IH. unfold put_cp. rewrite (aget_aset keyeqb keyeqb_eq).
+      destruct (last_write k r) as [[c|]|] eqn:E; [reflexivity| |].
+      * destruct (keyeqb k (cp_key (q_cp q))) eqn:Ek; [|reflexivity]. apply keyeqb_eq in Ek. subst k. congruence.
+      * destruct (keyeqb k (cp_key (q_cp q))); reflexivity.
+    + rewrite IH. destruct (last_write k r) as [x|] eqn:E; [reflexivity|].
+      destruct (keyeqb k (cp_key (q_cp q))); reflexivity.
+    + cbn [fold_left]. rewrite IH. unfold put_cp. rewrite (aget_aset keyeqb keyeqb_eq).
+      destruct (last_write k r) as [[c|]|] eqn:E; [reflexivity| |].
+      * destruct (keyeqb k (cp_key (q_cp q))) eqn:Ek; [|reflexivity]. apply keyeqb_eq in Ek. subst k. congruence.
+      * destruct (keyeqb k (cp_key (q_cp q))); reflexivity.
+Qed.
+
+(* what the standby should hold, as a function of the stream *)
+Lemma expected_by_last_write fl g evs k : f_stale fl = true ->
+  aget keyeqb k (expected_store (live_run evs)) =
+  match last_write k (reqs_from g 0 evs) with Some r => r | None => None end.
+Proof.
+  intros Hs.
+  destruct (store_inorder fl g evs 0%N (mkrecv [] [] (mkreg [] [] [])) [] eq_refl eq_refl) as [A _].
+  unfold live_run. fold (live_fold [] evs). rewrite <- A, (store_of_run_today fl _ Hs), aget_store_run. reflexivity.
+Qed.
+
+(* ---------- facts about the live set ---------- *)
+Definition live_ok (live : list ((N * N) * session)) : Prop :=
+  NoDup (map fst live) /\ forall k s, In (k, s) live -> k = sess_key s.
+
+Lemma in_aset_weak {V} k (v : V) l k' v' : In (k', v') (aset keyeqb k v l) -> (k', v') = (k, v) \/ In (k', v') l.
+Proof.
+  induction l as [|[k0 v0] r IH]; simpl; [intros [A|[]]; auto|].
+  destruct (keyeqb k k0); simpl; intros [A|A]; auto. destruct (IH A); auto.
+Qed.
+
+Lemma live_ok_step live s rel : live_ok live -> live_ok (live_step live s rel).
+Proof.
+  intros [Hn Hc]. unfold live_step. destruct rel; split.
+  - apply (nodup_adel keyeqb keyeqb_eq), Hn.
+  - intros k s' H. apply (in_adel keyeqb keyeqb_eq) in H. apply Hc, H.
+  - apply (nodup_aset keyeqb keyeqb_eq), Hn.
+  - intros k s' H. apply in_aset_weak in H. destruct H as [H|H]; [inversion H; reflexivity|apply Hc, H].
+Qed.
+Lemma live_ok_fold evs : forall live, live_ok live -> live_ok (live_fold live evs).
+Proof. induction evs as [|[s r] t IH]; intros live H; [exact H|]. rewrite live_fold_cons. apply IH, live_ok_step, H. Qed.
+
+Lemma live_srg g evs : forall live, (forall k s, In (k, s) live -> s_srg s = g) ->
+  (forall e, In e evs -> s_srg (fst e) = g) -> forall k s, In (k, s) (live_fold live evs) -> s_srg s = g.
+Proof.
+  induction evs as [|[s0 r] t IH]; intros live Hl He k s H; [exact (Hl k s H)|].
+  rewrite live_fold_cons in H. apply (IH (live_step live s0 r)) in H; [exact H| |intros e' He'; apply He; right; exact He'].
+  intros k' s' H'. unfold live_step in H'. cbn [fst snd] in H'. destruct r.
+  - apply (in_adel keyeqb keyeqb_eq) in H'. apply (Hl k' s'), H'.
+  - apply in_aset_weak in H'. destruct H' as [H'|H']; [inversion H'; subst; apply (He (s0, false)); left; reflexivity|apply (Hl k' s' H')].
+Qed.
+
+Lemma filter_id {A} (P : A -> bool) l : (forall x, In x l -> P x = true) -> filter P l = l.
+Proof. apply filter_all. Qed.
+
+Lemma fold_put_live live : live_ok live -> forall k st,
+  aget keyeqb k (fold_left put_cp (map (fun ks => s2c (snd ks)) live) st) =
+  match aget keyeqb k live with Some s => Some (s2c s) | None => aget keyeqb k st end.
+Proof.
+  induction live as [|[k0 s0] r IH]; intros [Hn Hc] k st; [reflexivity|].
+  simpl map. cbn [fold_left]. inversion Hn as [|? ? Hn1 Hn2]; subst.
+  rewrite IH by (split; [exact Hn2|intros k' s' H'; apply Hc; right; exact H']).
+  assert (Hk0 : k0 = sess_key s0) by (apply Hc; left; reflexivity).
+  simpl aget. unfold put_cp. rewrite (aget_aset keyeqb keyeqb_eq), cp_key_s2c, <- Hk0.
+  destruct (keyeqb k k0) eqn:E.
+  - apply keyeqb_eq in E. subst k. destruct (aget keyeqb k0 r) as [s|] eqn:Er; [|reflexivity].
+    exfalso. apply Hn1. apply (aget_in keyeqb keyeqb_eq _ _ _ Hn2) in Er. apply in_map_iff. exists (k0, s). auto.
+  - reflexivity.
+Qed.
+
+(* ---------- the system run, piece by piece (one SRG) ---------- *)
+Definition ev_ops (evs : list (session * bool)) : list op := map (fun e => OEvent (fst e) (snd e)) evs.
+
+Lemma sys_run_cons fl y o os : sys_run fl y (o :: os) = sys_run fl (sys_step fl y o) os.
+Proof. reflexivity. Qed.
+Lemma sys_run_app fl y a b : sys_run fl y (a ++ b) = sys_run fl (sys_run fl y a) b.
+Proof. unfold sys_run. apply fold_left_app. Qed.
+
+Lemma reqs_from_app g a : forall seq b,
+  reqs_from g seq (a ++ b) = reqs_from g seq a ++ reqs_from g (seq + N.of_nat (length a)) b.
+Proof.
+  induction a as [|[s r] t IH]; intros seq b; simpl; [rewrite N.add_0_r; reflexivity|].
+  rewrite IH. do 3 f_equal. lia.
+Qed.
+
+Lemma sys_events fl g evs : forall y seq b,
+  g <> 0%N -> y_sender y = [(g, (seq, b))] -> (forall e, In e evs -> s_srg (fst e) = g) ->
+  (seq + N.of_nat (length evs) < n64)%N ->
+  sys_run fl y (ev_ops evs) =
+  mksys [(g, ((seq + N.of_nat (length evs))%N, fold_left push (reqs_from g seq evs) b))] (y_recv y)
+        (y_sent y ++ reqs_from g seq evs) (y_next y) (live_fold (y_live y) evs) (y_panics y).
+Proof.
+  induction evs as [|[s rel] t IH]; intros y seq b Hg Hy Hall Hlt.
+  - simpl. rewrite N.add_0_r, app_nil_r, <- Hy. destruct y; reflexivity.
+  - cbn [ev_ops map]. fold (ev_ops t). rewrite sys_run_cons. cbn [sys_step fst snd].
+    assert (Hs : s_srg s = g) by (apply (Hall (s, rel)); left; reflexivity).
+    unfold event_op, sender_event. rewrite Hy, Hs. destruct (N.eqb_spec g 0); [contradiction|].
+    cbn [aget]. rewrite N.eqb_refl.
+    assert (Hseq : n64z (seq + 1) = (seq + 1)%N) by (unfold n64z; apply N.mod_small; simpl length in Hlt; lia).
+    rewrite Hseq. cbn [aset]. rewrite N.eqb_refl.
+    match goal with |- sys_run fl ?Y _ = _ =>
+      rewrite (IH Y (seq + 1)%N (push b (mkreq g (seq + 1) (if rel then ADelete else AUpdate) (s2c s))) Hg eq_refl
+                  (fun e He => Hall e (or_intror He)) ltac:(simpl length in Hlt; lia)) end.
+    cbn [y_recv y_sent y_next y_live y_panics reqs_from fold_left]. rewrite <- app_assoc. simpl app.
+    unfold act_of. rewrite live_fold_cons. cbn [fst snd]. f_equal. do 3 f_equal. simpl length. lia.
+Qed.
+
+Lemma sent_of_all g l : (forall q, In q l -> q_srg q = g) -> sent_of g l = l.
+Proof. intros H. unfold sent_of. apply filter_all. intros q Hq. rewrite (H q Hq). apply N.eqb_refl. Qed.
+
+Lemma sys_delivers fl g j : forall y m,
+  y_next y = [(g, m)] -> (forall q, In q (y_sent y) -> q_srg q = g) -> (m + j <= length (y_sent y))%nat ->
+  sys_run fl y (repeat (ODeliver g) j) =
+  mksys (y_sender y) (recv_run fl (y_recv y) (firstn j (skipn m (y_sent y)))) (y_sent y) [(g, (m + j)%nat)]
+        (y_live y) (y_panics y).
+Proof.
+  induction j as [|j IH]; intros y m Hn Hs Hlen.
+  - simpl. rewrite Nat.add_0_r, <- Hn. destruct y; reflexivity.
+  - cbn [repeat]. rewrite sys_run_cons. cbn [sys_step].
+    unfold next_of. rewrite Hn. cbn [aget]. rewrite N.eqb_refl, (sent_of_all g _ Hs).
+    destruct (nth_error (y_sent y) m) as [q|] eqn:Eq; [|apply nth_error_None in Eq; lia].
+    cbn [aset]. rewrite N.eqb_refl.
+    match goal with |- sys_run fl ?Y _ = _ =>
+      rewrite (IH Y (S m) eq_refl Hs ltac:(cbn [y_sent]; lia)) end. cbn [y_sender y_recv y_sent y_live y_panics].
+    rewrite (skipn_cons_nth m _ _ Eq). cbn [firstn]. rewrite recv_run_cons.
+    replace (m + S j)%nat with (S m + j)%nat by lia. reflexivity.
+Qed.
+
+Lemma rc_store_recv_bulk fl rc srg w :
+  rc_store (recv_bulk fl rc srg w) = fold_left put_cp (bulk_cps fl w) (rc_store rc).
+Proof.
+  unfold recv_bulk. rewrite <- (store_of_updates fl).
+  destruct (rev w) as [|q ?]; [reflexivity|]. destruct (N.ltb 0 (q_seq q)); reflexivity.
+Qed.
+Lemma rc_store_recv_snapshot fl rc srg seq cps :
+  rc_store (recv_snapshot fl rc srg seq cps) = fold_left put_cp cps (rc_store rc).
+Proof. unfold recv_snapshot. rewrite <- (store_of_updates fl). destruct (N.ltb 0 seq); reflexivity. Qed.
+
+(* every live session still has an entry in the retained backlog window *)
+Definition window_covers (cap : Z) (evs : list (session * bool)) (g : N) : Prop :=
+  forall k c, aget keyeqb k (expected_store (live_run evs)) = Some c ->
+  exists q, In q (skipn (length evs - Z.to_nat cap) (reqs_from g 0 evs)) /\ cp_key (q_cp q) = k.
+
+(* bulk sync of a fresh standby: afterwards it holds exactly the live sessions, and the stream resumes behind the
+   sender's sequence number *)
+Lemma bulk_fresh fl g0 cap g evs1 :
+  f_range fl = false -> f_stale fl = true -> f_bulk fl = false ->
+  g <> 0%N -> (forall e, In e evs1 -> s_srg (fst e) = g) ->
+  (0 < cap <= max_make)%Z -> (Z.of_nat (length evs1) < two63 - 1)%Z -> evs1 <> [] ->
+  (f_window fl = true -> window_covers cap evs1 g) ->
+  let reqs1 := reqs_from g 0 evs1 in
+  let y1 := mksys [(g, (N.of_nat (length evs1), fold_left push reqs1 (new_ring cap)))] (mkrecv [] [] g0) reqs1 []
+                  (live_run evs1) O in
+  exists rcb, sys_step fl y1 (OBulk g) = mksys (y_sender y1) rcb reqs1 [(g, length evs1)] (live_run evs1) O /\
+              forall k, aget keyeqb k (rc_store rcb) = aget keyeqb k (expected_store (live_run evs1)).
+Proof.
+  intros Hfr Hfs Hfb Hg Hall Hcap Hn Hne Hcov reqs1 y1.
+  set (c := Z.to_nat cap). set (n1 := length evs1).
+  set (w := skipn (n1 - c) reqs1).
+  assert (Hn1 : (0 < n1)%nat) by (unfold n1; destruct evs1; [contradiction|simpl; lia]).
+  assert (Hlen1 : length reqs1 = n1) by (apply reqs_from_length).
+  assert (Hinv : ring_inv c (fold_left push reqs1 (new_ring cap)) w).
+  { unfold w. rewrite <- Hlen1. apply pushed_ring_inv. lia. }
+  assert (Hcs : consec (1 + Z.of_nat (n1 - c)) w).
+  { unfold w. pose proof (consec_skipn 1 reqs1 (n1 - c) (reqs_from_consec g 0 evs1)) as G. exact G. }
+  assert (Hwl : length w = (n1 - (n1 - c))%nat) by (unfold w; rewrite skipn_length; lia).
+  assert (Hwne : w <> []) by (intros E; rewrite E in Hwl; simpl in Hwl; unfold c in *; lia).
+  unfold two63 in *.
+  destruct (full_window c _ w (1 + Z.of_nat (n1 - c)) Hinv ltac:(unfold c; lia) Hcs ltac:(lia)
+              ltac:(unfold two63; lia) Hwne) as (o & n & Ho & Hnw & Hoz & Hnz & Hrange).
+  assert (Hnn : n = N.of_nat n1) by (unfold c in *; lia).
+  (* the lookups of both paths *)
+  assert (Hexp : forall k, aget keyeqb k (expected_store (live_run evs1)) =
+                           match last_write k reqs1 with Some r => r | None => None end).
+  { intros k. apply (expected_by_last_write fl g evs1 k Hfs). }
+  assert (Hsplit : reqs1 = firstn (n1 - c) reqs1 ++ w) by (unfold w; symmetry; apply firstn_skipn).
+  unfold sys_step, bulk_op. cbn [y_sender y1 aget]. rewrite N.eqb_refl, Ho, Hnw.
+  destruct (N.eqb_spec o 0) as [E0|_]; [lia|]. destruct (N.eqb_spec n 0) as [E0|_]; [lia|]. cbn [orb].
+  unfold last_of. cbn [y_recv y1 rc_last aget]. rewrite N.add_0_l, !Nat.mul_0_r.
+  assert (Hwin : forall rcb,
+     rc_store rcb = fold_left put_cp (compact w) [] ->
+     (f_window fl = true \/ (n1 <= c)%nat) ->
+     forall k, aget keyeqb k (rc_store rcb) = aget keyeqb k (expected_store (live_run evs1))).
+  { intros rcb Hst Hwhy k. rewrite Hst, aget_compact, Hexp.
+    replace (last_write k reqs1) with (last_write k (firstn (n1 - c) reqs1 ++ w)) by (rewrite <- Hsplit; reflexivity).
+    rewrite last_write_app.
+    destruct (last_write k w) as [[cp|]|] eqn:Ew; [reflexivity|reflexivity|]. simpl aget.
+    destruct Hwhy as [Hw|Hw].
+    - destruct (match last_write k (firstn (n1 - c) reqs1) with Some r => r | None => None end) as [cp|] eqn:Ep;
+        [|reflexivity].
+      exfalso. destruct (Hcov Hw k cp) as (q & Hq & Hk).
+      + rewrite Hexp.
+        replace (last_write k reqs1) with (last_write k (firstn (n1 - c) reqs1 ++ w)) by (rewrite <- Hsplit; reflexivity).
+        rewrite last_write_app, Ew. exact Ep.
+      + fold n1 c in Hq. fold reqs1 in Hq. fold w in Hq. apply (proj1 (last_write_none k w) Ew q Hq Hk).
+    - replace (n1 - c)%nat with 0%nat by lia. reflexivity. }
+  destruct (f_window fl) eqn:Hfw; cbn [orb].
+  - (* HEAD: always the window *)
+    unfold range. rewrite Hfr, Hrange, somes_map_some, Nat.mul_0_r. cbn [iter_n y_sender y_recv y_sent y_next y_live y_panics y1].
+    eexists. split.
+    + unfold next_of. cbn [y_next aget]. rewrite Hnn, Nat2N.id, Nat.max_0_l. cbn [aset]. reflexivity.
+    + apply Hwin; [|left; reflexivity]. rewrite rc_store_recv_bulk. unfold bulk_cps. rewrite Hfb. reflexivity.
+  - destruct (N.leb_spec o 1) as [Ho1|Ho1].
+    + (* the window reaches back to the beginning: replay it *)
+      unfold range. rewrite Hfr, Hrange, somes_map_some, Nat.mul_0_r. cbn [iter_n y_sender y_recv y_sent y_next y_live y_panics y1].
+      eexists. split.
+      * unfold next_of. cbn [y_next aget]. rewrite Hnn, Nat2N.id, Nat.max_0_l. cbn [aset]. reflexivity.
+      * apply Hwin; [|right; unfold c in *; lia]. rewrite rc_store_recv_bulk. unfold bulk_cps. rewrite Hfb. reflexivity.
+    + (* behind the window: snapshot of the session tables *)
+      cbn [iter_n y_sender y_recv y_sent y_next y_live y_panics y1].
+      eexists. split.
+      * unfold next_of. cbn [y_next aget]. fold n1. rewrite Nat2N.id, Nat.max_0_l. cbn [aset]. reflexivity.
+      * intros k. rewrite rc_store_recv_snapshot. cbn [rc_store]. unfold snapshot_cps. cbn [y_live].
+        assert (Hok : live_ok (live_run evs1)) by (apply (live_ok_fold evs1 []); split; [constructor|intros ? ? []]).
+        rewrite (filter_id _ (live_run evs1)).
+        -- rewrite (fold_put_live _ Hok). unfold expected_store. rewrite aget_map.
+           destruct (aget keyeqb k (live_run evs1)); reflexivity.
+        -- intros [k' s'] Hin. cbn [snd]. apply N.eqb_eq.
+           apply (live_srg g evs1 [] (fun _ _ F => match F with end) Hall k' s' Hin).
+Qed.
+
+Lemma bulk_then_stream_state fl g0 cap g evs1 evs2 :
+  f_range fl = false -> f_stale fl = true -> f_bulk fl = false ->
+  g <> 0%N -> (forall e, In e (evs1 ++ evs2) -> s_srg (fst e) = g) ->
+  (0 < cap <= max_make)%Z -> (Z.of_nat (length (evs1 ++ evs2)) < two63 - 1)%Z -> evs1 <> [] ->
+  (f_window fl = true -> window_covers cap evs1 g) ->
+  exists (rcb : receiver) (sn : sender),
+    (forall k, aget keyeqb k (rc_store rcb) = aget keyeqb k (expected_store (live_run evs1))) /\
+    sys_run fl (sys_init cap [g] g0)
+      (ev_ops evs1 ++ [OBulk g] ++ ev_ops evs2 ++ repeat (ODeliver g) (length evs2)) =
+    mksys sn (recv_run fl rcb (reqs_from g (N.of_nat (length evs1)) evs2))
+          (reqs_from g 0 evs1 ++ reqs_from g (N.of_nat (length evs1)) evs2)
+          [(g, (length evs1 + length evs2)%nat)] (live_fold (live_run evs1) evs2) O.
+Proof.
+  intros Hfr Hfs Hfb Hg Hall Hcap Hn Hne Hcov.
+  assert (Hall1 : forall e, In e evs1 -> s_srg (fst e) = g) by (intros e He; apply Hall, in_or_app; auto).
+  assert (Hall2 : forall e, In e evs2 -> s_srg (fst e) = g) by (intros e He; apply Hall, in_or_app; auto).
+  rewrite app_length in Hn. unfold two63 in Hn.
+  assert (Hn64 : (N.of_nat (length evs1) + N.of_nat (length evs2) < n64)%N) by (unfold n64; lia).
+  destruct (bulk_fresh fl g0 cap g evs1 Hfr Hfs Hfb Hg Hall1 Hcap ltac:(unfold two63; lia) Hne Hcov) as (rcb & Hb & Hlook).
+  cbn zeta in Hb.
+  exists rcb. eexists. split; [exact Hlook|].
+  rewrite !sys_run_app. unfold sys_init. cbn [map].
+  match goal with |- context [sys_run fl ?Y (ev_ops evs1)] =>
+    rewrite (sys_events fl g evs1 Y 0%N (new_ring cap) Hg eq_refl Hall1 ltac:(lia)) end.
+  cbn [y_recv y_sent y_next y_live y_panics]. rewrite N.add_0_l, app_nil_l.
+  change (live_fold [] evs1) with (live_run evs1).
+  change (sys_run fl ?Y [OBulk g]) with (sys_step fl Y (OBulk g)). rewrite Hb. cbn [y_sender].
+  match goal with |- context [sys_run fl ?Y (ev_ops evs2)] =>
+    rewrite (sys_events fl g evs2 Y (N.of_nat (length evs1)) _ Hg eq_refl Hall2 Hn64) end.
+  cbn [y_recv y_sent y_next y_live y_panics].
+  match goal with |- context [sys_run fl ?Y (repeat _ _)] =>
+    rewrite (sys_delivers fl g (length evs2) Y (length evs1) eq_refl) end.
+  - cbn [y_live y_panics y_recv y_sent y_next y_sender].
+    rewrite skipn_app, reqs_from_length, Nat.sub_diag, skipn_all2 by (rewrite reqs_from_length; lia).
+    cbn [skipn app]. rewrite firstn_all2 by (rewrite reqs_from_length; lia).
+    reflexivity.
+  - cbn [y_sent]. intros q Hq. apply in_app_or in Hq. destruct Hq as [Hq|Hq];
+      apply in_nth_error in Hq; destruct Hq as (j & _ & Hj); destruct (reqs_from_nth _ _ _ _ _ Hj) as (A & _); exact A.
+  - cbn [y_sent]. rewrite app_length, !reqs_from_length. lia.
+Qed.
+
+Lemma bulk_then_stream fl g0 cap g evs1 evs2 :
+  f_range fl = false -> f_stale fl = true -> f_bulk fl = false ->
+  g <> 0%N -> (forall e, In e (evs1 ++ evs2) -> s_srg (fst e) = g) ->
+  (0 < cap <= max_make)%Z -> (Z.of_nat (length (evs1 ++ evs2)) < two63 - 1)%Z -> evs1 <> [] ->
+  (f_window fl = true -> window_covers cap evs1 g) ->
+  let y := sys_run fl (sys_init cap [g] g0)
+             (ev_ops evs1 ++ [OBulk g] ++ ev_ops evs2 ++ repeat (ODeliver g) (length evs2)) in
+  y_live y = live_run (evs1 ++ evs2) /\ y_panics y = O /\ next_of y g = length (y_sent y) /\
+  forall k, aget keyeqb k (rc_store (y_recv y)) = aget keyeqb k (expected_store (y_live y)).
+Proof.
+  intros Hfr Hfs Hfb Hg Hall Hcap Hn Hne Hcov y. subst y.
+  destruct (bulk_then_stream_state fl g0 cap g evs1 evs2 Hfr Hfs Hfb Hg Hall Hcap Hn Hne Hcov) as (rcb & sn & Hlook & ->).
+  cbn [y_live y_panics y_recv y_sent]. unfold next_of. cbn [y_next aget]. rewrite N.eqb_refl.
+  assert (Hlive : live_fold (live_run evs1) evs2 = live_run (evs1 ++ evs2)).
+  { unfold live_run. change (fold_left _ evs1 []) with (live_fold [] evs1).
+    change (fold_left _ (evs1 ++ evs2) []) with (live_fold [] (evs1 ++ evs2)). symmetry. apply live_fold_app. }
+  split; [exact Hlive|]. split; [reflexivity|]. split; [rewrite app_length, !reqs_from_length; reflexivity|].
+  intros k. rewrite (store_of_run_today fl _ Hfs), aget_store_run, Hlook, Hlive.
+  rewrite (expected_by_last_write fl g (evs1 ++ evs2) k Hfs), (expected_by_last_write fl g evs1 k Hfs).
+  rewrite reqs_from_app, N.add_0_l, last_write_app.
+  destruct (last_write k (reqs_from g (N.of_nat (length evs1)) evs2)); reflexivity.
+Qed.
+
+Lemma aset_idem {K V} (eqb : K -> K -> bool) (eqb_eq : forall a b, eqb a b = true <-> a = b) k (v v' : V) l :
+  aset eqb k v (aset eqb k v' l) = aset eqb k v l.
+Proof.
+  induction l as [|[k0 v0] r IH]; simpl.
+  - rewrite (eqb_refl' eqb eqb_eq). reflexivity.
+  - destruct (eqb k k0) eqn:E; simpl; [rewrite (eqb_refl' eqb eqb_eq); reflexivity|]. rewrite E, IH. reflexivity.
+Qed.
+
+(* a delivery whose store write failed, followed by its retransmission, is one successful delivery — for every flag
+   set (today lastSeq has already moved when the write fails; nothing consults it) *)
+Lemma failed_then_retransmitted fl rc q : recv_step fl (recv_fail fl rc q) q = recv_step fl rc q.
+Proof.
+  unfold recv_fail. destruct (f_stale fl) eqn:Hs; [|reflexivity].
+  unfold recv_step. rewrite Hs. cbn [negb andb rc_last rc_store rc_reg].
+  rewrite (aset_idem N.eqb N.eqb_eq). reflexivity.
+Qed.
+
+Lemma last_write_some_ex k l : forall x, last_write k l = Some x -> exists q, In q l /\ cp_key (q_cp q) = k.
+Proof.
+  induction l as [|q r IH]; simpl; intros x; [discriminate|].
+  destruct (last_write k r) as [y|] eqn:E.
+  - intros _. destruct (IH y eq_refl) as (q' & A & B). exists q'. auto.
+  - destruct (keyeqb k (cp_key (q_cp q))) eqn:Ek; [|discriminate]. intros _. apply keyeqb_eq in Ek. exists q. auto.
+Qed.
+
+(* a backlog that has not wrapped covers everything *)
+Lemma window_covers_unwrapped cap evs g : (length evs <= Z.to_nat cap)%nat -> window_covers cap evs g.
+Proof.
+  intros H k c Hc. replace (length evs - Z.to_nat cap)%nat with 0%nat by lia. cbn [skipn].
+  rewrite (expected_by_last_write head g evs k eq_refl) in Hc.
+  destruct (last_write k (reqs_from g 0 evs)) as [x|] eqn:E; [|discriminate].
+  exact (last_write_some_ex _ _ x E).
+Qed.
